@@ -815,12 +815,70 @@ def r10(ctx):
         rep.ok('C20.R10', 'filter_fix_linedirs: the %d block(s) that skip the write are control dependent on ctrl.gen_line_dirs' % len(skip))
     return 1
 
+# ------------------------------------------------------------------ R11
+
+def r11(ctx):
+    """R11: generated code is attributed to the file it is written to.  filter_tee_header() feeds two m4 runs, one for the
+    scanner and one for the header, and tells each its own file name through M4_YY_OUTFILE_NAME (the name the line
+    directives for generated code carry).  The stream that also receives M4_YY_IN_HEADER is the header's: its definition
+    must take the name from env.headerfilename, the other one from env.outfilename."""
+    rep = ctx.rep; prog = ctx.flex
+    f = prog.fn('filter_tee_header')
+    if f is None or not f.blocks: rep.broken('filter_tee_header not found')
+    res = ir.Resolver(f)
+    def stream_of(c):
+        for a in c.ops:
+            d = f.def_of(a) if a[0] == 'reg' else None
+            if d is not None and d.op == 'load':
+                l = res.loc(d.ops[0])
+                if l[0] == 'local': return l
+        return None
+    def fmt_of(c):
+        for a in c.ops:
+            t = f.mod.cstring(a)
+            if t is not None: return t
+        return None
+    hdr_stream = None; defs = []
+    for c in f.ins:
+        if c.op != 'call' or c.callee not in ('fputs', 'fprintf'): continue
+        t = fmt_of(c)
+        if t is None: continue
+        if 'M4_YY_IN_HEADER' in t: hdr_stream = stream_of(c)
+        if 'M4_YY_OUTFILE_NAME' in t and '%s' in t and c.callee == 'fprintf': defs.append(c)
+    if hdr_stream is None or len(defs) != 2: rep.broken('C20.R11: filter_tee_header: header stream %s, %d definitions of M4_YY_OUTFILE_NAME' % (hdr_stream, len(defs)))
+    n = 0
+    for c in defs:
+        st = stream_of(c)
+        fields = set()
+        for a in c.ops:
+            for d in flow.value_slice(f, a):
+                if d.op == 'load':
+                    cl = ir.loc_class(res.loc(d.ops[0]))
+                    if cl and cl[0] == 'field' and cl[2] in ('headerfilename', 'outfilename'): fields.add(cl[2])
+                if d.op == 'phi':
+                    for o in d.ops:
+                        for e in flow.value_slice(f, o):
+                            if e.op == 'load':
+                                cl = ir.loc_class(res.loc(e.ops[0]))
+                                if cl and cl[0] == 'field' and cl[2] in ('headerfilename', 'outfilename'): fields.add(cl[2])
+        want = 'headerfilename' if st == hdr_stream else 'outfilename'
+        which = 'header' if st == hdr_stream else 'scanner'
+        n += 1
+        if fields == {want}:
+            rep.ok('C20.R11', 'filter_tee_header: the %s stream is told env.%s as M4_YY_OUTFILE_NAME' % (which, want))
+        else:
+            rep.fail('C20.R11', 'C20.R11:filter.c:filter_tee_header:%s-named-after-%s' % (which, '+'.join(sorted(fields)) or 'nothing'), where(c),
+                     'the m4 run that produces the %s is given M4_YY_OUTFILE_NAME from {%s} instead of env.%s: line directives for generated code in the %s name the wrong file'
+                     % (which, ', '.join(sorted(fields)) or 'no file name field', want, which),
+                     replay_input='flex --header-file=scan.h -o scan.c (without -L): grep "#line" scan.h names "scan.c"')
+    return n
+
 def run(ctx):
     rep = ctx.rep
     sp = lex.parse_spec(ctx.art.source('scan.l'))
     rep.require(len(sp.rules) >= 250, 'scan.l model has only %d rules' % len(sp.rules))
     rep.setcount('scan_l_rules', len(sp.rules))
-    r1(ctx); r2(ctx, sp); r3(ctx, sp); r4(ctx); r5(ctx, sp); r6(ctx, sp); r7(ctx); r8(ctx, sp); r9(ctx, sp); r10(ctx)
+    r1(ctx); r2(ctx, sp); r3(ctx, sp); r4(ctx); r5(ctx, sp); r6(ctx, sp); r7(ctx); r8(ctx, sp); r9(ctx, sp); r10(ctx); r11(ctx)
     rep.floor('C20.R1', 2, 'line_directive_out + the %top trampoline')
     rep.floor('C20.R2', 60, 'raw-echo rule x copying start condition pairs')
     rep.floor('C20.R3', 8, 'entry rules + 2 cross-module openers + section 3')
@@ -828,6 +886,7 @@ def run(ctx):
     rep.floor('C20.R6', 6, 'pushed start conditions of scan.l')
     rep.floor('C20.R7', 1, 'set_input_file')
     rep.floor('C20.R10', 1, 'the squeeze of filter_fix_linedirs')
+    rep.floor('C20.R11', 2, 'the two m4 preambles of filter_tee_header')
     rep.floor('C20.R9', 1, 'doing_codeblock / indented_code')
     rep.floor('C20.R8', 150, 'rules active in the 7 pushed start conditions + rules with a path that stays in its start condition')
     rep.floor('C20.R5', 250, 'one obligation per non-EOF rule of scan.l')
